@@ -3348,9 +3348,25 @@ func (p *wat2X64Worker) buildFunc_ins(
 		sp0 := p.fnWasmR0Base - 8*stk.Pop(token.F32) - 8
 		ret0 := p.fnWasmR0Base - 8*stk.Push(token.I64) - 8
 
+		// cvttss2si 只能表示有符号数: 2^63 及以上的值先减去 2^63, 转换后再补上最高位
+		labelSuffix := p.genNextId()
+		labelBig := p.makeLabelId(kLabelPrefixName_else, "", labelSuffix)
+		labelEnd := p.makeLabelId(kLabelPrefixName_end, "", labelSuffix)
+
 		fmt.Fprintf(w, "    # i64.trunc_f32_u\n")
 		fmt.Fprintf(w, "    movss     xmm4, dword ptr [rbp%+d]\n", sp0)
+		fmt.Fprintf(w, "    mov       eax, 0x5F000000 # 2^63\n")
+		fmt.Fprintf(w, "    movd      xmm5, eax\n")
+		fmt.Fprintf(w, "    ucomiss   xmm4, xmm5\n")
+		fmt.Fprintf(w, "    jae       %s # >= 2^63\n", labelBig)
 		fmt.Fprintf(w, "    cvttss2si rax, xmm4\n")
+		fmt.Fprintf(w, "    jmp       %s\n", labelEnd)
+		p.gasFuncLabel(w, labelBig)
+		fmt.Fprintf(w, "    subss     xmm4, xmm5\n")
+		fmt.Fprintf(w, "    cvttss2si rax, xmm4\n")
+		fmt.Fprintf(w, "    movabs    r10, 0x8000000000000000\n")
+		fmt.Fprintf(w, "    xor       rax, r10\n")
+		p.gasFuncLabel(w, labelEnd)
 		fmt.Fprintf(w, "    mov       qword ptr [rbp%+d], rax\n", ret0)
 		fmt.Fprintln(w)
 
@@ -3368,9 +3384,25 @@ func (p *wat2X64Worker) buildFunc_ins(
 		sp0 := p.fnWasmR0Base - 8*stk.Pop(token.F64) - 8
 		ret0 := p.fnWasmR0Base - 8*stk.Push(token.I64) - 8
 
+		// cvttsd2si 只能表示有符号数: 2^63 及以上的值先减去 2^63, 转换后再补上最高位
+		labelSuffix := p.genNextId()
+		labelBig := p.makeLabelId(kLabelPrefixName_else, "", labelSuffix)
+		labelEnd := p.makeLabelId(kLabelPrefixName_end, "", labelSuffix)
+
 		fmt.Fprintf(w, "    # i64.trunc_f64_u\n")
 		fmt.Fprintf(w, "    movsd     xmm4, qword ptr [rbp%+d]\n", sp0)
+		fmt.Fprintf(w, "    movabs    rax, 0x43E0000000000000 # 2^63\n")
+		fmt.Fprintf(w, "    movq      xmm5, rax\n")
+		fmt.Fprintf(w, "    ucomisd   xmm4, xmm5\n")
+		fmt.Fprintf(w, "    jae       %s # >= 2^63\n", labelBig)
 		fmt.Fprintf(w, "    cvttsd2si rax, xmm4\n")
+		fmt.Fprintf(w, "    jmp       %s\n", labelEnd)
+		p.gasFuncLabel(w, labelBig)
+		fmt.Fprintf(w, "    subsd     xmm4, xmm5\n")
+		fmt.Fprintf(w, "    cvttsd2si rax, xmm4\n")
+		fmt.Fprintf(w, "    movabs    r10, 0x8000000000000000\n")
+		fmt.Fprintf(w, "    xor       rax, r10\n")
+		p.gasFuncLabel(w, labelEnd)
 		fmt.Fprintf(w, "    mov       qword ptr [rbp%+d], rax\n", ret0)
 		fmt.Fprintln(w)
 
@@ -3408,9 +3440,25 @@ func (p *wat2X64Worker) buildFunc_ins(
 		sp0 := p.fnWasmR0Base - 8*stk.Pop(token.I64) - 8
 		ret0 := p.fnWasmR0Base - 8*stk.Push(token.F32) - 8
 
+		// cvtsi2ss 把 rax 当作有符号数: 最高位为 1 时先折半(保留最低位参与舍入), 转换后再加倍
+		labelSuffix := p.genNextId()
+		labelBig := p.makeLabelId(kLabelPrefixName_else, "", labelSuffix)
+		labelEnd := p.makeLabelId(kLabelPrefixName_end, "", labelSuffix)
+
 		fmt.Fprintf(w, "    # f32.convert_i64_u\n")
 		fmt.Fprintf(w, "    mov      rax, qword ptr [rbp%+d]\n", sp0)
+		fmt.Fprintf(w, "    test     rax, rax\n")
+		fmt.Fprintf(w, "    js       %s # >= 2^63\n", labelBig)
 		fmt.Fprintf(w, "    cvtsi2ss xmm4, rax\n")
+		fmt.Fprintf(w, "    jmp      %s\n", labelEnd)
+		p.gasFuncLabel(w, labelBig)
+		fmt.Fprintf(w, "    mov      r10, rax\n")
+		fmt.Fprintf(w, "    shr      r10, 1\n")
+		fmt.Fprintf(w, "    and      eax, 1\n")
+		fmt.Fprintf(w, "    or       r10, rax\n")
+		fmt.Fprintf(w, "    cvtsi2ss xmm4, r10\n")
+		fmt.Fprintf(w, "    addss    xmm4, xmm4\n")
+		p.gasFuncLabel(w, labelEnd)
 		fmt.Fprintf(w, "    movss    dword ptr [rbp%+d], xmm4\n", ret0)
 		fmt.Fprintln(w)
 
@@ -3458,9 +3506,25 @@ func (p *wat2X64Worker) buildFunc_ins(
 		sp0 := p.fnWasmR0Base - 8*stk.Pop(token.I64) - 8
 		ret0 := p.fnWasmR0Base - 8*stk.Push(token.F64) - 8
 
+		// cvtsi2sd 把 rax 当作有符号数: 最高位为 1 时先折半(保留最低位参与舍入), 转换后再加倍
+		labelSuffix := p.genNextId()
+		labelBig := p.makeLabelId(kLabelPrefixName_else, "", labelSuffix)
+		labelEnd := p.makeLabelId(kLabelPrefixName_end, "", labelSuffix)
+
 		fmt.Fprintf(w, "    # f64.convert_i64_u\n")
 		fmt.Fprintf(w, "    mov      rax, qword ptr [rbp%+d]\n", sp0)
+		fmt.Fprintf(w, "    test     rax, rax\n")
+		fmt.Fprintf(w, "    js       %s # >= 2^63\n", labelBig)
 		fmt.Fprintf(w, "    cvtsi2sd xmm4, rax\n")
+		fmt.Fprintf(w, "    jmp      %s\n", labelEnd)
+		p.gasFuncLabel(w, labelBig)
+		fmt.Fprintf(w, "    mov      r10, rax\n")
+		fmt.Fprintf(w, "    shr      r10, 1\n")
+		fmt.Fprintf(w, "    and      eax, 1\n")
+		fmt.Fprintf(w, "    or       r10, rax\n")
+		fmt.Fprintf(w, "    cvtsi2sd xmm4, r10\n")
+		fmt.Fprintf(w, "    addsd    xmm4, xmm4\n")
+		p.gasFuncLabel(w, labelEnd)
 		fmt.Fprintf(w, "    movsd    qword ptr [rbp%+d], xmm4\n", ret0)
 		fmt.Fprintln(w)
 
